@@ -23,6 +23,9 @@ def es_model(rep, tier, work):
             rep.violation("EarlyStopping.tla violates %s" % (r.invariant_violated or "an action property"), payload=r.out[-5000:])
             return
         raise CheckError("TLC failed on EarlyStopping.tla:\n" + r.out[-3000:])
+    # unbounded strengthening (any epsilon, any patience, arbitrary long histories of arbitrary finite values): Apalache discharges
+    # an inductive invariant of the same Done action (EarlyStoppingInd.tla)
+    common.inductive(rep, "EarlyStoppingInd", SPECDIR, what="early stopping reports the last accepted round and stops exactly when due")
     g = dot.Graph(dotfile)
     pred = g.bfs_tree()
     eps = 1
